@@ -88,6 +88,19 @@ CLAIMED = {
             'unchanged. A brute-force reference exists, so exploration with a differential oracle is the right level.',
             'exact integer aggregates isolate C02 from floating-point batching (C01); masks shaped like the masked inputs (documented).',
             '§3 C02'),
+    'C12': ('fault_enumeration',
+            'Hypothesis-generated fault plans (failing values/positions per operator, missing keys, failing data-source reads) over generated programs; reference interpreter with the failing elements removed',
+            'Faults are injected at generated positions into any operator kind of C08-grammar programs (several per stream, adjacent, '
+            'first/last, skippable and other exception types), into input fetching (missing key) and into the data source (slice and '
+            'single reads, sharded), with error skipping on and off, re-batching options on apply/assign and num_threads 0..2. '
+            'Skipping on: output equals the reference run with exactly the failing elements removed (in order; multiset under '
+            'threads) and every assigned value is still next to its own input. Skipping off: the first failing element surfaces with '
+            'the original exception in the cause chain, exactly the earlier elements were delivered, sinks are closed, no helper '
+            'thread survives. Enumerating fault positions against a reference is the appropriate level.',
+            'all function-call errors are skippable (wrapped into ValueError), input-fetch and non-ValueError/TypeError source errors '
+            'are not; threaded runs compared as multisets with a 30 s watchdog (re-run before reporting); open finding '
+            'F-C12-assign-batch-skip steered around and reported.',
+            '§3 C12'),
 }
 
 PENDING_REASON = 'check not built yet in this session (work in progress; see DESIGN.md §9 build order) - not claimed until its check exists'
